@@ -287,8 +287,6 @@ def _run_dft(c, case, rng):
         # 1e-6 relative: the code keeps its window table in float32 (on-mask cast), i.e. it carries ~6e-8 relative round-off
         tol = 1e-6 * (1.0 + max(sum(abs(v) for v in row) for row in coef))
         _drive_tol(c, f"dft[{n}]", real, [Es, Hs], pairs, box, tol, rng)
-        # the recorded-step bookkeeping the scale depends on, as plain concrete facts of the real placement
-        c.prove(f"{desc}: num_time_steps_recorded == |recorded steps|", bool(int(d.num_time_steps_recorded) == len(rec)), key=f"{cfg['cls']}:recorded-count")
 
 
 def _drive_tol(c, tag, real, syms, pairs_fn, box, tol, rng):
@@ -316,8 +314,13 @@ def _drive_tol(c, tag, real, syms, pairs_fn, box, tol, rng):
             return err > 0.5 * tol, dict(obligation=nm, err=err, tol=tol, code=l, oracle=r, inputs=ci)
         return replay
 
+    bad = set()
     for i, (nm, key, l, r) in enumerate(pairs):
-        prove_entries(c, f"{tag} {nm}", l, r, box, mk_replay(i), key, tol=tol)
+        if key in bad:  # one confirmed witness per violation class and detector configuration is enough
+            c.notes.append(f"{tag} {nm}: not examined (class {key} already violated for this configuration)")
+            continue
+        if not prove_entries(c, f"{tag} {nm}", l, r, box, mk_replay(i), key, tol=tol):
+            bad.add(key)
     # vacuity twin: some entry of the accumulated state can be non-zero inside the box
     flat = [v for v in jx.lift(pairs[0][2]).reshape(-1)]
     v = next((x for x in flat if sc.is_symbolic_scalar(x)), None)
